@@ -325,6 +325,12 @@ fn routing_sweep(t: &mut Tally) {
         ("v = 5".into(), Form::NvLit(LitK::Other, 0)),
         ("v = 1.5".into(), Form::NvLit(LitK::Other, 0)),
         ("v = b\"x\"".into(), Form::NvLit(LitK::Other, 0)),
+        // a byte is not a character
+        ("v = b'c'".into(), Form::NvLit(LitK::Other, 0)),
+        ("v = b'c'".into(), Form::NvLit(LitK::Other, 1)),
+        ("b'c'".into(), Form::NestedLit(LitK::Other)),
+        ("b\"x\"".into(), Form::NestedLit(LitK::Other)),
+        ("1.5".into(), Form::NestedLit(LitK::Other)),
         ("v = -5".into(), Form::NvLit(LitK::Other, 0)),
         ("v = -1.5".into(), Form::NvLit(LitK::Other, 0)),
         ("v = -5".into(), Form::NvLit(LitK::Other, 1)),
@@ -436,6 +442,9 @@ fn routing_sweep(t: &mut Tally) {
                             (1, Err(e)) => {
                                 // an unspanned hook error comes back carrying the item's span
                                 match (e.explicit_span().and_then(vrt::spans::cols), item_cols) {
+                                    // a word or a list has no narrower part the error could be about:
+                                    // the span is the item's, from its first to its last token
+                                    (Some(s), Some(i)) if matches!(form, Form::Word | Form::List) && s != i => bad(format!("hook error came back with span {s:?}, the item is at {i:?}"), t),
                                     (Some(s), Some(i)) if vrt::spans::within(s, i) => {}
                                     (None, _) => bad("hook error came back without a span".into(), t),
                                     (s, i) => bad(format!("hook error came back with span {s:?}, outside the item {i:?}"), t),
@@ -574,7 +583,7 @@ pub fn main(args: &Args) {
     rep.set("generated_lists", json!(n_lists));
     rep.set("lists_mutated", json!(n_base));
     rep.rule = format!(
-        "parser: every list of 0..{} items over 42 item forms (all literal kinds incl. negative numbers and byte strings; paths incl. `::a::b`, keywords, raw identifiers; name-values with 11 expression forms incl. turbofish / closure commas and `true = 1`; lists nested to depth 3; `a(,)`), with and without a trailing comma, and every single-token mutation (delete, duplicate, insert one of , ; = :: ! -, identifier -> keyword) of {n_base} of them, (plus lists of 5..65 items with the forms in rotation from every offset) against an independent recogniser (all segmentations at commas into chunks that are wholly a syn::Lit or a syn::Meta): accept/reject, item count, order, class, token text, print/re-parse identity. routing: 128 probe types (every subset of the seven hooks overridden) x 20 item forms (word, lists, name-value with each literal kind and non-literal expressions, values inside 1-2 invisible groups, bare literal members) x 4 hook behaviours (Ok, unspanned Err, pre-spanned Err, unspanned bundle of spanned members) against the documented priority chain: exactly one hook (the outermost overridden on the chain) or a default rejection of the documented kind; errors come back with the item's span unless already spanned. states = token streams / (probe, item, behaviour) triples.",
+        "parser: every list of 0..{} items over 42 item forms (all literal kinds incl. negative numbers and byte strings; paths incl. `::a::b`, keywords, raw identifiers; name-values with 11 expression forms incl. turbofish / closure commas and `true = 1`; lists nested to depth 3; `a(,)`), with and without a trailing comma, and every single-token mutation (delete, duplicate, insert one of , ; = :: ! -, identifier -> keyword) of {n_base} of them, (plus lists of 5..65 items with the forms in rotation from every offset) against an independent recogniser (all segmentations at commas into chunks that are wholly a syn::Lit or a syn::Meta): accept/reject, item count, order, class, token text, print/re-parse identity. routing: 128 probe types (every subset of the seven hooks overridden) x 58 item forms (word, lists incl. one-literal lists, name-value with each literal kind incl. byte / byte-string / C-string / negated numbers, operators in front of literals and other non-literal expressions, values inside 1-2 invisible groups, bare literal members) x 4 hook behaviours (Ok, unspanned Err, pre-spanned Err, unspanned bundle of spanned members) against the documented priority chain: exactly one hook (the outermost overridden on the chain) or a default rejection of the documented kind; errors come back with the item's span unless already spanned (for a word or a list exactly the item's span, for a name-value a span inside the item). states = token streams / (probe, item, behaviour) triples.",
         if thorough { 3 } else { 2 }
     );
     rep.assumptions = vec!["syn::Lit / syn::Meta parsing of a whole chunk defines what an item is".into()];
